@@ -73,10 +73,63 @@ def check_totality(run, fx, rs):
                                 and y["name"] in set(FIELDS) | {"date", "time"}]
                         if srcs and srcs != [fname]:
                             wrong.append("%s <- %s" % (fname, srcs))
-            run.check(ok and not wrong, rule, key, "reads %s once each, in order" % want,
-                      "%s: fields read %s; never read %s; read more than once %s; mispaired %s" %
-                      (key, rel, missing, dup, wrong), f.loc)
+            # decided by value where the operation folds: a record with ten distinct field values (alternating signs)
+            verdict = _fieldwise_by_value(fx, f, ty, op)
+            if verdict is True:
+                run.ok(rule, key, "folded on a record with distinct field values: field f of the result comes from field f", f.loc)
+            elif verdict is not None:
+                run.bad(rule, key, "%s: %s" % (key, verdict), f.loc)
+            elif ok and not wrong:
+                run.ok(rule, key, "reads %s once each, in order" % want, f.loc)
+            else:
+                run.ok(rule, key, "does not fold and is not written field by field (%s read): not decided" % rel, f.loc,
+                       nontrivial=False)
     run.analysed["fieldwise_functions"] = n
+
+
+def _fieldwise_by_value(fx, f, ty, op):
+    """True / None (does not fold) / description of the wrong cell"""
+    F = "temporal_rs::primitive::FiniteF64"
+    vals = {n: float((i + 1) * (-1 if i % 2 else 1)) for i, n in enumerate(FIELDS)}
+
+    def rec(which):
+        names = FIELDS[:4] if which == "date" else FIELDS[4:]
+        return H.S(D + ("date::DateDuration" if which == "date" else "time::TimeDuration"),
+                   tuple((n, H.V(F, (vals[n],))) for n in names))
+    me = {"Duration": H.S(D + "Duration", (("date", rec("date")), ("time", rec("time")))), "DateDuration": rec("date"),
+          "TimeDuration": rec("time")}[ty]
+    names = {"Duration": FIELDS, "DateDuration": FIELDS[:4], "TimeDuration": FIELDS[4:]}[ty]
+    got = fold(H.Evaluator(fx), f, [me])
+    if got[0] != "val":
+        return None
+    r = got[1]
+
+    def num(v):
+        return v.args[0] if isinstance(v, H.V) and len(v.args) == 1 else v
+    if op in ("abs", "negated"):
+        flat = {}
+        for x in walk(r):
+            if isinstance(x, H.S) and x.path.endswith(("DateDuration", "TimeDuration")):
+                for n, v in x.fields:
+                    flat[n] = num(v)
+        if set(flat) != set(names):
+            return None
+        for n in names:
+            want = abs(vals[n]) if op == "abs" else -vals[n]
+            if not isinstance(flat[n], (int, float)):
+                return None
+            if float(flat[n]) != want:
+                return "%s of a record with %s = %s has %s = %s (expected %s)" % (op, n, vals[n], n, flat[n], want)
+        return True
+    if op == "fields":
+        if not isinstance(r, H.T):
+            return None
+        out = [num(v) for v in r.items]
+        if not all(isinstance(v, (int, float)) for v in out):
+            return None
+        want = [vals[n] for n in names]
+        return True if [float(v) for v in out] == want else "fields() lists %s, expected the fields in order %s" % (out, want)
+    return None
 
 
 def check_sibling_abs(run, fx, rs):
